@@ -449,6 +449,73 @@ Proof.
   - rewrite HN. apply str_eqb_eq in Hm. rewrite <- Hm. reflexivity.
 Qed.
 
+Lemma slots_ok_html_text E ic tag attrs name value d :
+  spec_directive_name name = Some d ->
+  (sq "html" (dn_name d) = true \/ (sq "html" (dn_name d) = false /\ sq "text" (dn_name d) = true)) ->
+  user_value (html_text_value value) = true ->
+  match name with IdName _ | JNs (IdName _) (IdName _) => True | _ => False end ->
+  slots_ok E ic tag attrs (JAttr name value).
+Proof.
+  intros HN HK UV WF a.
+  destruct (html_text_refines E ic tag attrs name value d a HN HK UV) as (p & _ & _ & _ & _ & _ & HS).
+  rewrite spec_slot_none.
+  - cbn [attr_step]. rewrite (directive_iff name value WF), HN. exact HS.
+  - rewrite HN. destruct HK as [H|[_ H]]; apply str_eqb_eq in H; rewrite <- H; reflexivity.
+Qed.
+
+Lemma slots_ok_vmodel_element E tag attrs name value d :
+  spec_directive_name name = Some d ->
+  sq "html" (dn_name d) = false -> sq "text" (dn_name d) = false -> sq "model" (dn_name d) = true ->
+  static_arg (dp_arg (spec_directive_parts d value)) ->
+  arg_not_void (dp_arg (spec_directive_parts d value)) ->
+  match name with IdName _ | JNs (IdName _) (IdName _) => True | _ => False end ->
+  slots_ok E false tag attrs (JAttr name value).
+Proof.
+  intros HN Hh Ht Hm SA NV WF a.
+  destruct (vmodel_element_refines E tag attrs name value d a HN Hh Ht Hm SA NV) as (p & dir & _ & _ & _ & _ & _ & HS).
+  rewrite spec_slot_none.
+  - cbn [attr_step]. rewrite (directive_iff name value WF), HN. exact HS.
+  - rewrite HN. apply str_eqb_eq in Hm. rewrite <- Hm. reflexivity.
+Qed.
+
+(* the v-slots attribute itself: no prop, no binding, the slots value as written (an identifier
+   or an object literal; anything else is no slots value) *)
+Lemma vslots_attr_good E ic tag attrs name value d :
+  spec_directive_name name = Some d ->
+  sq "html" (dn_name d) = false -> sq "text" (dn_name d) = false ->
+  sq "model" (dn_name d) = false -> sq "slots" (dn_name d) = true ->
+  match name with IdName _ | JNs (IdName _) (IdName _) => True | _ => False end ->
+  contrib_ok E ic tag attrs (JAttr name value)
+  /\ dir_ok E ic tag attrs (JAttr name value)
+  /\ slots_ok E ic tag attrs (JAttr name value).
+Proof.
+  intros HN Hh Ht Hm Hs WF.
+  assert (ST : forall a, attr_step E ic a (JAttr name value)
+                         = mkAcc (a_props a) (a_margs a) (a_dyn a) (a_dirs a) (match parse_v_slots value with DSlots e => e | _ => None end)
+                                 (a_ref a) (a_class a) (a_style a) (a_hyd a) (a_dynkeys a) (a_st a)).
+  { intros a. cbn [attr_step]. rewrite (directive_iff name value WF), HN.
+    unfold step_directive. rewrite parse_directive_unfold, (name_parts_spec _ _ HN), Hh, Ht, Hm, Hs.
+    unfold parse_v_slots. destruct value; try reflexivity.
+    match goal with |- context [match ?e with Ident _ _ _ => _ | _ => _ end] => destruct e end; reflexivity. }
+  assert (SPEC : attr_spec E ic tag attrs (JAttr name value)
+                 = ([], [], Some (match value with
+                                  | JExprC ((Ident _ _ _) as e) => Some e
+                                  | JExprC ((Obj _) as e) => Some e
+                                  | _ => None
+                                  end))).
+  { cbn [attr_spec]. rewrite HN, Hh, Ht, Hs. reflexivity. }
+  split; [|split].
+  - split.
+    + intros e. unfold contribs_of. rewrite SPEC. discriminate.
+    + intros a. exists []. rewrite (ST a). cbn [a_props a_margs]. rewrite app_nil_r.
+      unfold contribs_of. rewrite SPEC. repeat split.
+  - intros a. exists []. rewrite (ST a). cbn [a_dirs]. rewrite app_nil_r. split; [reflexivity|].
+    intros s1. unfold spec_dirs. rewrite SPEC. reflexivity.
+  - intros a. rewrite (ST a). cbn [a_slots]. unfold spec_slot. rewrite SPEC. cbn [snd].
+    unfold parse_v_slots. destruct value; try reflexivity.
+    match goal with |- context [match ?e with Ident _ _ _ => _ | _ => _ end] => destruct e end; reflexivity.
+Qed.
+
 (* non-vacuity: `<div id="a" title={x}><Comp v-model={val} {...rest}>{y}</Comp> text {z}</div>` is in the fragment *)
 Section Example.
 Let opts : options := {| o_transform_on := false; o_optimize := true; o_merge_props := false;
